@@ -8,6 +8,11 @@ Every case is a generated BIDS-style tree written to a temporary directory:
   values as decoys, a different-suffix decoy, and one excluded directory holding an invalid decoy sidecar and an
   invalid decoy events file.  Contents are tiny HED column definitions, partly invalid.
 
+A second flavour of trees (idx >= FLAVOR) fills the sidecars with entries whose HED annotation sits only in unusual places
+(a HED key inside Levels, deeper levels, under another second-level key) or nowhere, at every level of the tree.  Every
+dataset object is then asked again (validate two / three times with warnings switched, validate after get_summary / after
+validate_sidecars / validate_datafiles alone): each later answer equals the answer of a fresh object (C16.repeat.same_answer).
+
 The oracle works on the *generated model* (entities are known from generation, never parsed from names):
   merged(O) = update, root -> dirname(O), of the one same-suffix sidecar per directory whose entities all occur
   with the same value in O.  Expected issue lists are composed per file from the public validators
@@ -49,6 +54,29 @@ COLS = {
     "onset": {"valid": [{"Description": "onset of the event"}], "invalid": [{"Description": "onset (other wording)"}]},
 }
 
+# sidecar entries whose HED annotation sits somewhere else than the column's own "HED" key, or that have none: whatever
+# the per-sidecar validator says about the merged dictionary is what the dataset validation has to report
+UNUSUAL = {
+    "trial_type": [{"Levels": {"go": {"HED": "Red"}, "stop": "s"}},                       # a HED key inside Levels
+                   {"Description": "d", "Levels": {"go": "g", "stop": {"HED": {"x": "Badtag"}}}},
+                   {"Extra": {"Deeper": {"HED": {"go": "Red", "stop": "Blue"}}}},          # HED two levels further down
+                   {"Description": "nothing annotated", "Levels": {"go": "g", "stop": "s"}},
+                   {"Levels": {"go": "g"}, "Derivative": {"HED": "Green"}},                 # HED under a second-level key
+                   {"LongName": "trial type"}],
+    "response": [{"Levels": {"left": {"HED": "Item"}, "right": {"HED": "Event"}}},
+                 {"Description": "which hand", "Units": {"HED": "Label/#"}},
+                 {"Description": "which hand"},
+                 {"Levels": {"left": "l", "right": "r"}, "TermURL": "http://example.org/HED"}],
+    "rt": [{"Description": "reaction time", "Units": "s"}, {"Units": "s", "Levels": {"HED": "Label/#"}},
+           {"Annotations": [{"HED": "Label/#"}]}],
+    "onset": [{"Description": "onset of the event"}, {"Description": "onset", "Levels": {"HED": {"a": "Red"}}}],
+    "stim_file": [{"Description": "a file", "Levels": {"a.png": {"HED": "Redd"}}}, {"LongName": "stimulus file"}],
+}
+# ordinary annotated columns used sparingly in the 'unusual' trees (so that some chains do inherit a real HED column)
+UNUSUAL_ORDINARY = {"trial_type": [{"HED": {"go": "Red", "stop": "Blue"}}, {"HED": {"go": "Red, Badtag", "stop": "Blue"}}],
+                    "response": [{"HED": {"left": "Item", "right": "Event"}}], "rt": [{"HED": "Label/#"}, {"HED": "Label"}]}
+FLAVOR = 100000       # tree idx >= FLAVOR: the 'unusual' flavour (idx - FLAVOR gives the shape of the tree)
+
 EVENTS = {
     "valid": ["onset\tduration\ttrial_type\tresponse\trt\n1.0\t0.5\tgo\tleft\t0.4\n2.0\t0.5\tstop\tright\tn/a\n",
               "onset\tduration\ttrial_type\n1.0\t0.5\tgo\n2.5\t0.5\tgo\n3.0\tn/a\tstop\n",
@@ -62,6 +90,19 @@ EVENTS = {
 def _name(entities, suffix, ext):
     parts = [f"{k}-{entities[k]}" for k in ORDER if k in entities]
     return "_".join(parts + [suffix]) + ext
+
+
+def gen_unusual_content(rng, ordinary):
+    """columns whose HED (if any) is not at the column's own HED key; 'ordinary': the chance of a normally annotated column"""
+    ncol = rng.choice([1, 1, 2, 2, 3])
+    cols = rng.sample(list(UNUSUAL), ncol)
+    out = {}
+    for c in cols:
+        if c in UNUSUAL_ORDINARY and rng.random() < ordinary:
+            out[c] = rng.choice(UNUSUAL_ORDINARY[c])
+        else:
+            out[c] = rng.choice(UNUSUAL[c])
+    return out
 
 
 def gen_sidecar_content(rng, clean):
@@ -79,9 +120,15 @@ def gen_sidecar_content(rng, clean):
 def gen_model(idx, seed):
     """-> dict(files=[...], params=...) ; each file: rel (tuple of components), kind, suffix, entities, excluded, content"""
     rng = random.Random(seed * 100003 + idx)
+    flavor, idx_full = idx // FLAVOR, idx
+    idx = idx % FLAVOR
+    # unusual flavour: per tree the chance that a column is annotated the ordinary way: none / rare / sometimes
+    ordinary = [0.0, 0.0, 0.15, 0.4][idx % 4]
     combos = list(itertools.product([1, 2], [0, 1, 2], [1, 2], [1, 2]))
     nsub, nses, ntask, nrun = combos[idx % len(combos)]
     lv = (idx // len(combos) + idx * 7) % 16
+    if flavor and lv == 0:
+        lv = 1 + idx % 15             # an unusual tree has sidecars somewhere
     levels = {name for bit, name in enumerate(["root", "sub", "ses", "dt"]) if lv >> bit & 1}
     clean = idx % 10 in (3, 6, 9)
     subs, sess = ["01", "02"][:nsub], ["1", "2"][:nses]
@@ -141,7 +188,8 @@ def gen_model(idx, seed):
                         value_sets.append(vs)
             for vs in value_sets:
                 files.append({"rel": d + (_name(vs, "events", ".json"),), "kind": "sidecar", "suffix": "events",
-                              "entities": vs, "excluded": False, "content": gen_sidecar_content(rng, clean)})
+                              "entities": vs, "excluded": False,
+                              "content": gen_unusual_content(rng, ordinary) if flavor else gen_sidecar_content(rng, clean)})
     # different-suffix decoys (never part of the events group)
     if rng.random() < 0.6:
         d, dent = rng.choice(dirs["root"] + dirs["sub"])
@@ -174,8 +222,10 @@ def gen_model(idx, seed):
     files.append({"rel": sub_in_x + (_name(ent, "events", ".tsv"),), "kind": "events", "suffix": "events",
                   "entities": ent, "excluded": True,
                   "content": "onset\tduration\ttrial_type\tHED\n1.0\t0.5\tgo\tExcludedtag2\n"})
-    params = {"idx": idx, "seed": seed, "subjects": nsub, "sessions": nses, "tasks": ntask, "runs": nrun,
+    params = {"idx": idx_full, "seed": seed, "subjects": nsub, "sessions": nses, "tasks": ntask, "runs": nrun,
               "levels": sorted(levels), "clean": clean, "excluded_dir": "/".join(xdir)}
+    if flavor:
+        params["flavor"] = "unusual placement of HED in the sidecars (ordinary columns: %s)" % ordinary
     return {"files": files, "params": params}
 
 
@@ -353,6 +403,11 @@ def check_model(model, fails, stats, subprocess_cli=False):
             if obs != exp:
                 fails.append(("C16.merge.sidecar", inp(sidecar=rel, chain=["/".join(s["rel"]) for s in chain]), obs, exp))
         # ---- validation
+        fresh = {}
+        for rel, f in exp_side.items():
+            merged = spec_merge(spec_chain(model, f))
+            stats["sidecars"] += 1
+            stats["sidecars_without_column_hed"] += not any(isinstance(v, dict) and "HED" in v for v in merged.values())
         for cfw in (False, True):
             try:
                 real = BidsDataset(root, schema=schema()).validate(check_for_warnings=cfw)
@@ -378,6 +433,18 @@ def check_model(model, fails, stats, subprocess_cli=False):
             if sorted(obs_s) != exp_s:
                 fails.append(("C16.validate.sidecar_issues", inp(check_for_warnings=cfw),
                               _diff(sorted(obs_s), exp_s), "per-sidecar validation of the merged sidecars"))
+            fresh[cfw] = (sorted(obs_s), sorted(x for v in obs_d.values() for x in v))
+            # the sidecar step on its own (a fresh object): the same list, nothing skipped
+            try:
+                g2 = BidsDataset(root, schema=schema()).get_tabular_group("events")
+                alone = sorted(norm_issue(i) for i in g2.validate_sidecars(schema(), check_for_warnings=cfw))
+            except BaseException as e:  # noqa
+                alone = "raises " + type(e).__name__ + ": " + str(e)[:200]
+            stats["sidecar_issues"] += len(exp_s)
+            if alone != exp_s:
+                fails.append(("C16.validate.sidecar_issues", inp(check_for_warnings=cfw, via="validate_sidecars"),
+                              alone if isinstance(alone, str) else _diff(alone, exp_s),
+                              "per-sidecar validation of the merged sidecars"))
             for name in sorted(set(obs_d) | set(exp_d)):
                 o, e = sorted(obs_d.get(name, [])), exp_d.get(name, [])
                 if o != e:
@@ -419,8 +486,64 @@ def check_model(model, fails, stats, subprocess_cli=False):
                 if not (isinstance(code, int) and (code != 0) == bool(lst)):
                     fails.append(("C16.cli.exit_status", inp(check_for_warnings=cfw, via="subprocess"), code,
                                   "non-zero" if lst else 0))
+        # ---- the same dataset object asked more than once
+        if len(fresh) == 2:
+            check_repeats(ds, root, params, fresh, fails, stats, inp)
     finally:
         shutil.rmtree(top, ignore_errors=True)
+
+
+REPEAT_PLANS = [
+    ["summary", "validate"],
+    ["validate_sidecars", "validate", "validate_datafiles", "validate_datafiles", "validate_sidecars"],
+    ["validate_datafiles_keep", "validate", "validate"],
+    ["validate_datafiles", "summary", "validate_datafiles", "validate"],
+    ["validate", "validate_sidecars", "validate_datafiles_keep", "validate_datafiles"],
+]
+
+
+def check_repeats(ds, root, params, fresh, fails, stats, inp):
+    """every later answer of one dataset object equals the answer a fresh object gives (which is judged above against the
+    per-file validators): validate() twice and three times, warnings switched in between, validate() after get_summary,
+    after validate_sidecars / validate_datafiles alone.  fresh: check_for_warnings -> (sidecar issues, datafile issues)"""
+    from hed.tools.bids.bids_dataset import BidsDataset
+    idx = params["idx"]
+    a, b = bool(idx & 1), bool(idx & 2)
+    plans = [(ds, [("validate", a), ("validate", b), ("validate", a)])]
+    plan = REPEAT_PLANS[(idx // 4) % len(REPEAT_PLANS)]
+    try:
+        plans.append((BidsDataset(root, schema=schema()), [(step, bool((idx + k) % 3 == 0) != a) for k, step in enumerate(plan)]))
+    except BaseException as e:  # noqa
+        fails.append(("C16.dataset.loads", inp(), type(e).__name__ + ": " + str(e)[:200], "a BidsDataset"))
+    for obj, steps in plans:
+        history = []
+        for step, cfw in steps:
+            history.append([step, cfw])
+            want = None
+            try:
+                grp = obj.get_tabular_group("events")
+                if step == "summary":
+                    obj.get_summary()
+                    continue
+                elif step == "validate":
+                    got = obj.validate(check_for_warnings=cfw)
+                    want = sorted(fresh[cfw][0] + fresh[cfw][1])
+                elif step == "validate_sidecars":
+                    got = grp.validate_sidecars(obj.schema, check_for_warnings=cfw)
+                    want = fresh[cfw][0]
+                else:
+                    got = grp.validate_datafiles(obj.schema, check_for_warnings=cfw, keep_contents=step.endswith("_keep"))
+                    want = fresh[cfw][1]
+                got = sorted(norm_issue(i) for i in got)
+            except BaseException as e:  # noqa
+                got = "raises " + type(e).__name__ + ": " + str(e)[:200]
+            stats["repeat_calls"] += 1
+            stats["repeat_nonempty"] += bool(want)
+            if got != want:
+                fails.append(("C16.repeat.same_answer", inp(calls_on_one_object=[list(h) for h in history]),
+                              got if isinstance(got, str) else _diff(got, want),
+                              "the answer a fresh BidsDataset object gives to the last call"))
+                break
 
 
 def _diff(obs, exp):
@@ -434,7 +557,8 @@ def _diff(obs, exp):
 
 def new_stats():
     return {"events_files": 0, "chain_len": [0, 0, 0, 0, 0], "overriding": 0, "defect_class": 0, "validations": 0,
-            "nonempty": 0, "cli": 0, "cli_nonzero": 0, "cli_subprocess": 0, "cli_raised": 0, "cli_raised_msgs": []}
+            "nonempty": 0, "cli": 0, "cli_nonzero": 0, "cli_subprocess": 0, "cli_raised": 0, "cli_raised_msgs": [],
+            "sidecars": 0, "sidecars_without_column_hed": 0, "sidecar_issues": 0, "repeat_calls": 0, "repeat_nonempty": 0}
 
 
 def _work(job):
@@ -460,7 +584,9 @@ def run(w: Workload):
               "free of invalid content.  A tree is non-trivial if some events file inherits >= 2 sidecars.")
     schema()
     nsub = 2 if w.quick else 12
+    n_unusual = 40 if w.quick else 400
     jobs = [(i, w.seed, i < nsub * 5 and i % 5 == 3) for i in range(n)]
+    jobs += [(FLAVOR + i, w.seed, False) for i in range(n_unusual)]
     workers = max(1, min(14, (os.cpu_count() or 2) - 1))
     with multiprocessing.get_context("fork").Pool(workers) as pool:
         results = pool.map(_work, jobs, chunksize=2)
@@ -486,12 +612,19 @@ def run(w: Workload):
     if skipped:
         w.assumptions.append(f"{skipped} generated trees skipped by the generator's own at-most-one check")
     w.part("generated BIDS trees", cases=len(results) - skipped,
-           bound=f"{n} trees; {tot['events_files']} events files with inheritance chains of length 0/1/2/3/4+ = "
+           bound=f"{n + n_unusual} trees; {tot['events_files']} events files with inheritance chains of length 0/1/2/3/4+ = "
                  f"{tot['chain_len']}, {tot['overriding']} with a column overridden by a deeper sidecar, "
                  f"{tot['defect_class']} in the known-defect class; {tot['validations']} dataset validations "
                  f"({tot['nonempty']} with issues); {tot['cli']} in-process CLI runs ({tot['cli_nonzero']} non-zero), "
                  f"{tot['cli_subprocess']} via `python -m hed.scripts.hed_validator`; main() raised in "
-                 f"{tot['cli_raised']} runs (counted as non-zero exit, see observations)",
+                 f"{tot['cli_raised']} runs (counted as non-zero exit, see observations); of these trees {n_unusual} have "
+                 f"sidecars whose HED sits only in unusual places (inside Levels, deeper levels, under another second-level "
+                 f"key) or nowhere, with ordinary columns in none / few / some of them: {tot['sidecars']} sidecars judged, "
+                 f"{tot['sidecars_without_column_hed']} whose merged chain has no column-level HED key, "
+                 f"{tot['sidecar_issues']} sidecar issues expected (BidsDataset.validate and validate_sidecars alone); "
+                 f"{tot['repeat_calls']} repeated calls on an already used dataset object ({tot['repeat_nonempty']} with a "
+                 f"non-empty expected answer): validate x3 with warnings switched, and one of {len(REPEAT_PLANS)} plans mixing "
+                 f"get_summary / validate_sidecars / validate_datafiles (keep_contents on/off) / validate",
            exhaustive=False, stats=tot)
     if tot["cli_raised"]:
         w.assumptions.append("observation (outside the property text): hed_validator.main() raised instead of returning in "
@@ -514,7 +647,8 @@ def replay(w: Workload, case: dict):
     model = gen_model(tree["idx"], tree["seed"])
     fails, stats = [], new_stats()
     check_model(model, fails, stats, subprocess_cli=case["input"].get("via") == "subprocess")
-    want = {k: case["input"][k] for k in ("events_file", "sidecar", "check_for_warnings", "format") if k in case["input"]}
+    want = {k: case["input"][k] for k in ("events_file", "sidecar", "check_for_warnings", "format", "via", "calls_on_one_object")
+            if k in case["input"]}
     for f in fails:
         if f[0] == case["clause"] and all(f[1].get(k) == v for k, v in want.items()):
             w.fail(f[0], f[1], f[2], f[3])
